@@ -370,7 +370,9 @@ func runBatch(path string) {
 		}
 		rounds := 1
 		if c.Delay {
-			rounds = 6 // start-up (VM.Init) of one simulation must overlap the others often
+			// start-up (VM.Init) of one simulation must overlap the others often: the race-detector
+			// runs repeat the concurrent group (VERIF_C09_ROUNDS)
+			rounds = common.EnvInt("VERIF_C09_ROUNDS", 1)
 		}
 		for r := 0; r < rounds; r++ {
 			var wg sync.WaitGroup
